@@ -86,7 +86,9 @@ def share_model(r):
                  "access": A.ACC_PUBLIC | (A.ACC_STATIC if static else 0),
                  "code": {"regs": 2 + len(params) + 1, "insns": insns, "tries": []}}
             (dm if static else vm).append(m)
-        classes.append({"desc": desc, "access": 1, "super": OBJ, "interfaces": [], "source": None,
+        if r.random() < 0.15:
+            sf, inf, dm, vm = [], [], [], []          # a class without class data (marker interface, empty inner class)
+        classes.append({"desc": desc, "access": 1 if (sf or inf or dm or vm) else 0x601, "super": OBJ, "interfaces": [], "source": None,
                         "sfields": sf, "ifields": inf, "dmethods": dm, "vmethods": vm})
     return {"classes": classes, "strings_extra": [r.choice(pool)]}
 
@@ -98,6 +100,7 @@ def share_model(r):
 def xref_model(r, ncls=None):
     """Classes whose methods reference each other, external classes, fields of other classes, strings, types."""
     ncls = ncls or r.randint(2, 8)
+    malformed = r.random() < 0.04       # a few models carry a type descriptor that is no descriptor at all
     pk = r.choice(["p", "q/r"])
     descs = ["L%s/C%d;" % (pk, i) for i in range(ncls)]
     externals = ["Ljava/lang/StringBuilder;", "Landroid/util/Log;", "Lext/E;", "[Ljava/lang/String;", "[I"]
@@ -143,10 +146,16 @@ def xref_model(r, ncls=None):
                                                   r.choice([[], [STR], ["I"]])])
 
     def rand_fref():
-        if r.random() < 0.8:
+        k = r.random()
+        if k < 0.8:
             c = r.choice([c for c in decl if c["fields"]] or [None])
             if c is not None:
                 f = r.choice(c["fields"])
+                if k < 0.1:
+                    # the field named through a subclass that does not declare it (inherited field)
+                    subs = [d for d in decl if d["super"] == c["desc"]]
+                    if subs:
+                        return f["static"], [r.choice(subs)["desc"], f["name"], f["type"]]
                 return f["static"], [c["desc"], f["name"], f["type"]]
         return r.random() < 0.5, [r.choice(["Lext/E;", r.choice(descs)]), "extf", "I"]
 
@@ -185,7 +194,7 @@ def xref_model(r, ncls=None):
                 elif k < 0.85:
                     insns.append(["new-instance", 0, r.choice(descs + ["Ljava/lang/StringBuilder;", "Lext/E;"])])
                 elif k < 0.93:
-                    insns.append(["const-class", 0, r.choice(descs + externals)])
+                    insns.append(["const-class", 0, r.choice(descs + externals + (["[", "", "[["] if malformed else []))])
                 elif k < 0.97:
                     insns.append(["check-cast", 0, r.choice(descs + externals)])
                 else:
@@ -222,8 +231,9 @@ class _Structured:
         self.nl = 0
         self.locals = list(range(nlocals))
         self.exc_reg = nlocals
-        self.regs = nlocals + 1 + nparams
-        self.params = [nlocals + 1 + i for i in range(nparams)]
+        self.obj_reg = nlocals + 1
+        self.regs = nlocals + 2 + nparams
+        self.params = [nlocals + 2 + i for i in range(nparams)]
         self.budget = r.randint(6, 40)
 
     def label(self):
@@ -258,8 +268,26 @@ class _Structured:
                 d2 = r.choice(self.locals)
                 self.emit("move-result", "", d2)
                 self.emit("binop", "add", d, d, d2)
-        else:
+        elif k < 0.95:
             self.emit("sget", "", d, ["Lext/U;", "g", "I"])
+        else:
+            # an object register defined with two different types on two paths, then used: its declared type has to be
+            # chosen among the types of its definitions
+            o = self.obj_reg
+            l1, l2 = self.label(), self.label()
+            ta, tb = r.sample(["Ljava/util/HashMap;", "Ljava/util/ArrayList;", "Lext/A;", "Lext/B;", STR], 2)
+            self.emit("ifz", r.choice(list(NEG)), self.var(), l1)
+            self.emit("new-instance", o, ta)
+            self.emit("invoke", "direct", [o], [ta, "<init>", "V", []])
+            self.emit("goto16", l2)
+            self.emit("label", l1)
+            if tb == STR:
+                self.emit("const-string", o, "s")
+            else:
+                self.emit("new-instance", o, tb)
+                self.emit("invoke", "direct", [o], [tb, "<init>", "V", []])
+            self.emit("label", l2)
+            self.emit("invoke", "static", [o], ["Lext/U;", "use", "V", [OBJ]])
 
     def cond(self, depth=0):
         r = self.r
